@@ -12,10 +12,13 @@ import (
 	"context"
 	"fmt"
 	"math/rand"
+	"sync"
+	"sync/atomic"
 
 	"github.com/tetratelabs/wazero"
 	"github.com/tetratelabs/wazero/api"
 	"github.com/tetratelabs/wazero/experimental"
+	"github.com/tetratelabs/wazero/internal/wasm"
 	"github.com/tetratelabs/wazero/verifharness/hx"
 	"github.com/tetratelabs/wazero/verifharness/wb"
 )
@@ -34,6 +37,102 @@ func (nopListener) Before(context.Context, api.Module, api.FunctionDefinition, [
 }
 func (nopListener) After(context.Context, api.Module, api.FunctionDefinition, []uint64) {}
 func (nopListener) Abort(context.Context, api.Module, api.FunctionDefinition, error)    {}
+
+// runConcurrent: one guest instance per goroutine, all importing the SAME host module (the documented way to use a
+// runtime from several goroutines); every goroutine passes values only it uses.  Each host function (three
+// definition styles) checks that the three views of one value it received belong together and returns the value:
+// whatever a host-function object keeps between "arguments stored" and "function entered" must not be shared.
+func runConcurrent(r *rand.Rand) {
+	for _, engine := range []string{"interpreter", "compiler"} {
+		ctx := context.Background()
+		var rc wazero.RuntimeConfig
+		if engine == "compiler" {
+			rc = wazero.NewRuntimeConfigCompiler()
+		} else {
+			rc = wazero.NewRuntimeConfigInterpreter()
+		}
+		rt := wazero.NewRuntimeWithConfig(ctx, rc)
+		var mixed atomic.Int64
+		var firstBad atomic.Value
+		check := func(a, b uint64, c uint32) uint64 {
+			if a != b || uint32(a) != c {
+				if mixed.Add(1) == 1 {
+					firstBad.Store(fmt.Sprintf("host received (%#x, %#x, %#x): never passed together by any guest", a, b, c))
+				}
+			}
+			return a
+		}
+		i64, i32 := api.ValueTypeI64, api.ValueTypeI32
+		_, err := rt.NewHostModuleBuilder("env").
+			NewFunctionBuilder().WithFunc(func(_ context.Context, a, b uint64, c uint32) uint64 { return check(a, b, c) }).Export("refl").
+			NewFunctionBuilder().WithFunc(func(_ context.Context, _ api.Module, a, b uint64, c uint32) uint64 { return check(a, b, c) }).Export("reflmod").
+			NewFunctionBuilder().WithGoFunction(api.GoFunc(func(_ context.Context, st []uint64) { st[0] = check(st[0], st[1], uint32(st[2])) }), []api.ValueType{i64, i64, i32}, []api.ValueType{i64}).Export("gofn").
+			NewFunctionBuilder().WithGoModuleFunction(api.GoModuleFunc(func(_ context.Context, _ api.Module, st []uint64) { st[0] = check(st[0], st[1], uint32(st[2])) }), []api.ValueType{i64, i64, i32}, []api.ValueType{i64}).Export("gomod").
+			Instantiate(ctx)
+		if err != nil {
+			hx.Fatal("concurrent: host module: %v", err)
+		}
+		m := wb.New()
+		names := []string{"refl", "reflmod", "gofn", "gomod"}
+		for _, n := range names {
+			m.ImportFunc("env", n, []byte{wb.I64, wb.I64, wb.I32}, []byte{wb.I64})
+		}
+		for k, n := range names {
+			m.AddFunc(wb.Func{Params: []byte{wb.I64}, Results: []byte{wb.I64}, Export: "call_" + n,
+				Body: wb.Cat(wb.LocalGet(0), wb.LocalGet(0), wb.LocalGet(0), wb.Op(wasm.OpcodeI32WrapI64), wb.Call(uint32(k)))})
+		}
+		cm, err := rt.CompileModule(ctx, m.Bytes())
+		if err != nil {
+			hx.Fatal("concurrent: guest: %v", err)
+		}
+		const G = 8
+		per := 4000
+		if hx.Thorough() {
+			per = 60000
+		}
+		var wrong atomic.Int64
+		var firstWrong atomic.Value
+		var wg sync.WaitGroup
+		for g := 0; g < G; g++ {
+			inst, err := rt.InstantiateModule(ctx, cm, wazero.NewModuleConfig().WithName(""))
+			if err != nil {
+				hx.Fatal("concurrent: instantiate: %v", err)
+			}
+			wg.Add(1)
+			go func(g int, inst api.Module) {
+				defer wg.Done()
+				fns := make([]api.Function, len(names))
+				for k, n := range names {
+					fns[k] = inst.ExportedFunction("call_" + n)
+				}
+				for i := 0; i < per; i++ {
+					x := uint64(g+1)<<56 | uint64(i)<<8 | 0x80000000 | uint64(g)
+					res, err := fns[i%len(fns)].Call(ctx, x)
+					if err != nil || res[0] != x {
+						if wrong.Add(1) == 1 {
+							firstWrong.Store(fmt.Sprintf("goroutine %d passed %#x to env.%s and got back %v (%v)", g, x, names[i%len(names)], res, err))
+						}
+					}
+				}
+			}(g, inst)
+		}
+		wg.Wait()
+		rt.Close(ctx)
+		rep.Case("concurrent/" + engine)
+		rep.Count(fmt.Sprintf("concurrent:%s:calls=%d", engine, G*per))
+		if mixed.Load() > 0 || wrong.Load() > 0 {
+			what := fmt.Sprintf("%d of %d concurrent host calls (8 goroutines, one instance each, values unique per goroutine) received or returned another call's values", mixed.Load()+wrong.Load(), G*per)
+			if v := firstBad.Load(); v != nil {
+				what += "; e.g. " + v.(string)
+			}
+			if v := firstWrong.Load(); v != nil {
+				what += "; e.g. " + v.(string)
+			}
+			rep.Violate(hx.Violation{Kind: "impl-violation", Signature: "C08:concurrent-host-calls-mix-values:" + engine, What: what,
+				Input: map[string]any{"stage": "concurrent", "engine": engine, "goroutines": G, "calls_per_goroutine": per}})
+		}
+	}
+}
 
 func runScale(r *rand.Rand) {
 	sizes := []int{300, 70}
